@@ -130,6 +130,12 @@ theorem panics_iff_tv {p : TVParams} (s : TV α) (hr : TVReach p s) (op : Op α)
       · rw [e1]; exact h
       · rw [h]; rfl
 
+example : TVReach ⟨8, 8, 8, 8⟩ tv0 ∧ specPanics tv0.xs (.remove 0 : Op Nat) ∧
+    (tv0.step (.remove 0)).1.isPanic = true :=
+  ⟨⟨⟨⟨3, by decide, rfl⟩, ⟨3, by decide, rfl⟩⟩, tv0, [], by decide, by simp, rfl⟩, by unfold specPanics; decide, by decide⟩
+
+example : (specStep ([] : List Nat) (.remove 0)).1 = .panic .index := by decide
+
 /-- **When `ThinVec::reserve` overflows**: exactly when `len + additional` overflows `usize`, or
     the bytes needed for `max(len + additional, 2 * cap)` elements after the header exceed
     `isize::MAX + 1 - align` (the `Layout` limit) — the same kind of request on which `Vec`
@@ -277,6 +283,9 @@ theorem after_panic_prefix :
       ∃ pre, pre <+: appended op ∧ (s.step op).2.xs = s.xs ++ pre) :=
   ⟨fun _ _ s hr op hs hp => after_panic_prefix_iv s hr op hs hp,
    fun _ _ s hr op hs hi hp => after_panic_prefix_tv s hr op hs hi hp⟩
+
+example : (tv0.step (.drain (.incl 3) .unb [] .drop)).1.isPanic = true ∧
+    (tv0.step (.drain (.incl 3) .unb [] .drop)).2.xs = tv0.xs ++ [] := by decide
 
 /-- The "cannot happen" branches of the model (slot reads guaranteed by the type invariant,
     `unwrap_unchecked` of the current layout) are never taken. -/
